@@ -1170,6 +1170,9 @@ func readContractFile(path string) (pkgName string, lines []string, err error) {
 			}
 		} else {
 			if strings.HasPrefix(t, "package ") {
+				if pkgName != "" {
+					return "", nil, fmt.Errorf("%s: a contract file names one package (second `package` line: %s)", path, t)
+				}
 				pkgName = strings.TrimSpace(strings.TrimPrefix(t, "package "))
 				continue
 			}
